@@ -27,3 +27,13 @@ pub(super) use operation::project_rotations;
 pub(super) use operation::traverse;
 pub(super) use tolerance::{MagneticSymmetryTolerances, SymmetryTolerances, ToleranceHandler, EPS};
 pub(super) use transformation::{Transformation, UnimodularLinear, UnimodularTransformation};
+
+#[cfg(feature = "verif")]
+pub mod verif_exports {
+    pub use super::cell::orbits_from_permutations;
+    pub use super::operation::{project_rotations, traverse};
+    pub use super::tolerance::{
+        MagneticSymmetryTolerances, SymmetryTolerances, ToleranceHandler, Tolerances, EPS,
+    };
+    pub use super::transformation::{Transformation, UnimodularLinear, UnimodularTransformation};
+}
